@@ -218,6 +218,9 @@ def write_evidence(ctx: Ctx, explanation: str, not_decided: str,
         'info': ctx.infos,
         'exhaustive': True,
         'analysed_root': ctx.program.root,
+        'alpha_normalised_functions': [
+            '%s:%s %s' % (m, q, ren)
+            for m, q, ren in getattr(ctx.program, 'alpha_renamed', [])],
     }
     if extra_cov:
         cov.update(extra_cov)
